@@ -26,17 +26,18 @@ ASSUME = ["what numpy.savetxt, matplotlib and pandas do with those arguments is 
 def run(prog, rep):
     rep.explanation = EXPL
     rep.assumptions = ASSUME
-    save(prog, rep)
-    contour(prog, rep)
-    supplied(prog, rep)
-    others(prog, rep)
-    read(prog, rep)
+    rep.part(save, prog, rep)
+    rep.part(contour, prog, rep)
+    rep.part(supplied, prog, rep)
+    rep.part(others, prog, rep)
+    rep.part(read, prog, rep)
     rep.expect_min("C20.save", 5)
     rep.expect_min("C20.contour", 6)
     rep.expect_min("C20.supplied", 1)
     rep.expect_min("C20.others", 7)
     rep.expect_min("C20.read", 3)
-
+    from .purity import row as _stateless_row
+    rep.part(_stateless_row, prog, rep, "C20", 3)
 
 def find_calls(fn, b, pred):
     out = []
